@@ -67,7 +67,7 @@ def numbers(ctx, cu):
             for y in (YS if full else [0, 1, 100, 1000]):
                 ns.add(x * 10 ** k + y)
     ns.update([bound - 1, 1001000021, 1000021, 1021001, 1000100, 1002000, 1002000000, 2001000000, 2001000021, 200000000,
-               80000000, 280080, 23000000, 23000, 23023023, 1000001000, 999999999999, 123456789012, 101101101101])
+               80000000, 280080, 23000000, 23000, 23023023, 2100000, 2100001, 2100000000, 2100000001, 2100100021, 1000001000, 999999999999, 123456789012, 101101101101])
     for _ in range(6000 if ctx.thorough else 300):
         k = r.randint(4, len(str(bound)) - 1)
         n = r.randint(10 ** (k - 1), 10 ** k - 1)
@@ -87,6 +87,10 @@ def parse_pair(o):
 def card_class(cu, n, text, bad):
     """word class of a failing cardinal (the recorded findings are keyed by it)"""
     if cu == 'fr-fr':
+        k, m = n // 1000 % 1000, n // 10 ** 6 % 1000
+        if fr_guard_no_cents(n) and ((k == 100 and n >= 10 ** 6) or (m == 100 and n >= 10 ** 9)):
+            # `deux millions cent mille`: SupportThousandsRegex takes `millions cent` as two round words in a row
+            return 'fr-fr:cardinal-scale:cent-after-scale'
         if bad == 'split' and fr_guard_no_cents(n) and ('-' in text or ' et ' in text):
             return 'fr-fr:cardinal:compound'       # the recorded family: a compound after `cent` inside a sentence
         if 'cents' in text:
@@ -104,23 +108,23 @@ def card_class(cu, n, text, bad):
 def ord_class(cu, n, text):
     if cu == 'es-es' and n % 100 == 17:
         return 'decimoseptimo'
-    if cu == 'pt-br' and 400 <= n < 500:
+    if cu == 'pt-br' and 400 <= n % 1000 < 500:
         return 'quadringentesimo'
     if cu == 'de-de' and 40 <= n % 100 <= 49:
         return 'vierzig'
-    if cu == 'it-it':
+    if cu == 'it-it' and n < 1000:
         if n % 100 == 0 and n >= 200:
             return 'hundreds'
         if n >= 100 and n % 100 in (11, 13):
             return 'compound-teen'
         if n >= 100:
             return 'compound'
-    if cu == 'fr-fr':
+    if cu == 'fr-fr' and n < 1000:
         if text.endswith('unième') and n != 21 and n % 100 not in (31, 41, 51, 61):
             return 'unieme'
         if n > 20 and (n % 100 in range(10, 20) or n % 100 in range(70, 80) or n % 100 in range(90, 100) or n % 10 == 0):
             return 'prefix-special'      # a tens / 10..19 ordinal after another numeral word
-    return 'unit' if n < 20 else 'tens' if n < 100 else 'hundreds'
+    return 'unit' if n < 20 else 'tens' if n < 100 else 'hundreds' if n < 1000 else 'thousands'
 
 
 def unit_and_pipeline(ctx, table, kind, guard_of, classify, fam):
@@ -232,4 +236,16 @@ def run(ctx):
             otable[(cu, n)] = parse_pair(o)
     unit_and_pipeline(ctx, otable, 'ordinal', lambda cu, n: ORD_GUARD.get(cu, lambda _: True)(n),
                       lambda cu, n, text, bad: '%s:ordinal:%s' % (cu, ord_class(cu, n, text)), 'ordinal-sub1000')
+    # ---- German ordinals from 1000 to 10^6 (`spellOrdDe`, theorem german_ordinal_sub1e6)
+    r = ctx.rng('numord-de-big')
+    ns = set()
+    for k in KS:
+        for u in [0, 1, 2, 3, 7, 8, 11, 12, 20, 21, 40, 43, 99, 100, 101, 111, 143, 200, 900, 999]:
+            ns.add(1000 * k + u)
+    for _ in range(4000 if ctx.thorough else 250):
+        ns.add(r.randint(1000, 999999))
+    ns = sorted(ns)
+    dtable = {('de-de', n): parse_pair(o) for n, o in zip(ns, common.driver(['no.ordde\t%d' % n for n in ns]))}
+    unit_and_pipeline(ctx, dtable, 'ordinal', lambda cu, n: True,
+                      lambda cu, n, text, bad: '%s:ordinal:%s' % (cu, ord_class(cu, n, text)), 'ordinal-de-sub1e6')
     ctx.extra['numord_seconds'] = round(time.time() - t0, 1)
